@@ -26,7 +26,8 @@
 (***************************************************************************)
 EXTENDS Integers, Sequences, FiniteSets, TLC
 
-CONSTANTS MaxConds, MaxItems
+CONSTANTS MaxConds, MaxItems,
+          RuleVariant   \* "tree": the rule as implemented | "no-parity": quote parity ignored | "no-pushback": an end piece is never a start (non-vacuity)
 
 SplitModes == {"none", "quotes", "after", "before"}
 \* what the text character of a quoted value is: a letter, or a character that is special in one of the Python
@@ -81,7 +82,7 @@ Max(S) == CHOOSE x \in S : \A y \in S : y <= x
 Min(S) == CHOOSE x \in S : \A y \in S : y >= x
 
 (* ------------------------------------------- transcription of the code   *)
-IsLiteralStart(p, mod) == p.lit /\ NQuotes(p) % 2 = mod
+IsLiteralStart(p, mod) == p.lit /\ (IF RuleVariant = "no-parity" THEN NQuotes(p) > 0 ELSE NQuotes(p) % 2 = mod)
 IsLiteralEnd(p) == p.lit /\ NQuotes(p) > 0
 IsSingleQuote(p) == p.lit /\ Len(p.atoms) = 1 /\ p.atoms[1].k = "q"
 
@@ -94,7 +95,7 @@ Extract(P, i, mod) ==
        IF Ends = {} THEN <<>>
        ELSE LET j == Min(Ends)
                 pat == IF \E m \in (i + 1)..(j - 1) : ~P[m].lit THEN <<[s |-> i, e |-> j]>> ELSE <<>>
-            IN IF IsLiteralStart(P[j], 0) /\ ~IsSingleQuote(P[j])
+            IN IF RuleVariant # "no-pushback" /\ IsLiteralStart(P[j], 0) /\ ~IsSingleQuote(P[j])
                THEN pat \o Extract(P, j, 0)        \* the end piece opens the next literal: it is looked at again
                ELSE pat \o Extract(P, j + 1, 1)
 
